@@ -359,7 +359,16 @@ def guard_sentinel(ctx, prog):
 
 guard_sentinel.rule_id = "C12.GUARD-sentinel"
 
-RULES = [tyg_strong, pdom_breaker, unlink_queued, tyg_captures, guard_sentinel]
+def data_remove_parent(ctx, prog):
+    """Dropping handles in any order must not disturb the remaining graph: the swap-remove bookkeeping of
+    remove_parent (C11.DATA-remove-parent) keeps the surviving parent's indices right."""
+    from .c11 import data_remove_parent as f
+    f(ctx, prog, "C12.DATA-remove-parent")
+
+
+data_remove_parent.rule_id = "C12.DATA-remove-parent"
+
+RULES = [tyg_strong, pdom_breaker, unlink_queued, tyg_captures, guard_sentinel, data_remove_parent]
 
 # control signature of the bookkeeping effects this property depends on (rules/ctrlsig.py)
 from .ctrlsig import make_rule as _ctrl_rule  # noqa: E402
